@@ -101,6 +101,27 @@ where
 }
 
 /// Word positions over a seekable byte stream (`std::io::Cursor`).
+/// `WordAdapter::flush`: reports Ok only if the wrapped sink's flush succeeded
+/// (a sink that buffers would otherwise silently keep bytes back)
+pub fn flush<W: VW>()
+where
+    u64: CastableInto<W>,
+    WordAdapter<W, FaultyWrite<CAPB>>: WordWrite<Word = W, Error = std::io::Error>,
+{
+    let mut sink = FaultyWrite::<CAPB>::new(0);
+    sink.faulty_flush = true;
+    let mut a = WordAdapter::<W, _>::new(sink);
+    let res = a.flush();
+    let sink = a.into_inner();
+    kani::assert(sink.flushes >= 1, "OBS c11.flush: the wrapped sink is flushed");
+    match res {
+        Ok(()) => kani::assert(sink.flushed_ok >= 1, "OBS c11.flush: Ok only if a flush of the wrapped sink succeeded (no bytes may stay behind unreported)"),
+        Err(_) => kani::assert(sink.flush_errors >= 1, "OBS c11.flush: an error only if the wrapped sink reported one"),
+    }
+    kani::cover!(res.is_err(), "c11.flush reachable (failing flush)");
+    kani::cover!(res.is_ok(), "c11.flush reachable (successful flush)");
+}
+
 pub fn positions<W: VW>()
 where
     u64: CastableInto<W>,
@@ -151,6 +172,9 @@ macro_rules! c11_for {
             #[kani::stub(alloc::fmt::format, crate::stubs::format_stub)]
             #[kani::unwind($unw)]
             pub fn c11_positions() { positions::<$w>() }
+            #[kani::proof]
+            #[kani::unwind(4)]
+            pub fn c11_flush() { flush::<$w>() }
         }
     };
 }
